@@ -40,8 +40,8 @@ CLAIMS['C12'] = dict(
 CLAIMS['C13'] = dict(
     text=('Rect::contains over all of i64 (any corner order), Polygon::contains against an exact integer oracle '
           '(cross-product boundary test + half-open crossing rule, no division) for EVERY simple polygon with 3 vertices on '
-          'the grid ±3 (thorough: ±6, 4 vertices ±4, 5 vertices ±3, 6 vertices ±2) and 4 vertices on ±1, every query point '
-          'of the same grid, repeated consecutive vertices, 2^20-sized coordinates (thorough), Manhattan Path::contains for '
+          'the grid ±3 (thorough: 3 vertices ±4 and ±6, 4 vertices ±2) and 4 vertices on ±1, every query point '
+          'of the same grid, repeated consecutive vertices, Manhattan Path::contains for '
           '2-3 (4) points with widths 0..6 (must-contain within half width perpendicular to a segment, must-exclude beyond '
           'half width in Chebyshev distance), and Vec<Point>::bbox / BoundBox::contains for 5 points over i32. Each is one '
           'SAT query over all values in the bound.'),
@@ -154,7 +154,7 @@ NOT_APPLICABLE = {
 PENDING = {}
 
 # properties whose thorough tier has been run green on this tree (others register the quick command only)
-THOROUGH_OK = {'C15', 'C09', 'C14', 'C12', 'C07', 'C10'}  # for these the thorough tier is the same harness set as the quick tier
+THOROUGH_OK = {'C15', 'C09', 'C14', 'C12', 'C07', 'C10', 'C02', 'C13', 'C03'}  # for these the thorough tier is the same harness set as the quick tier
 
 
 def main():
